@@ -72,8 +72,139 @@ def run_case(ctx, fzf, c):
             "marks": ["touch " + m for m in marks]}
 
 
+# ------------------------------------------------------------------ GET: slices, counts, no state change, no crash
+HUGE = 10 ** 6          # numbers above any list length are all alike for DumpSlice (and TLC integers are 32 bit)
+NUMS = [0, 1, 2, 5, 11, 12, 13, 99, 100, 101, 1000, 65536, 2 ** 31 - 1, 2 ** 31, 2 ** 32 + 1, 10 ** 18, 2 ** 63 - 1]
+JUNK = ["x=1", "limit=", "offset=", "limit=abc", "limits=3", "limit=99999999999999999999", "offset=99999999999999999999", "", "limit", "&"]
+
+
+def make_get_session(rng, n):
+    nitems = rng.choice([0, 1, 12, 12, 150])
+    items = ["%03d %s" % (i, rng.choice(["ab", "xy", "abx", "yz"])) for i in range(nitems)]
+    query = rng.choice(["", "", "ab", "x", "zzz"])
+    nsel = rng.choice([0, 0, 2, 5])
+    gets = []
+    for _ in range(rng.randint(6, 12)):
+        parts, lim, off = [], 100, 0
+        for _ in range(rng.choice([0, 1, 1, 2, 2, 3])):
+            r = rng.random()
+            if r < 0.4:
+                v = rng.choice(NUMS)
+                parts.append("limit=%d" % v)
+                lim = v
+            elif r < 0.8:
+                v = rng.choice(NUMS)
+                parts.append("offset=%d" % v)
+                off = v
+            else:
+                parts.append(rng.choice(JUNK))      # ignored (no '=', unknown name, or a value strconv.Atoi rejects)
+        gets.append({"q": "&".join(parts), "limit": lim, "offset": off})
+    return {"id": n, "items": items, "query": query, "nsel": nsel, "gets": gets}
+
+
+def state_digest(st):
+    return [st["query"], st["position"], st["sort"], st["totalCount"], st["matchCount"], st["reading"],
+            st["current"]["index"] if st.get("current") else -1]
+
+
+def run_get_session(ctx, fzf, c):
+    s = tmuxdrv.Session(ctx, fzf, ["--no-color", "--multi", "--query", c["query"]], input_data="".join(i + "\n" for i in c["items"]),
+                        width=50, height=10)
+    recs = []
+    try:
+        s.wait_listening()
+        s.wait_for(lambda tr: any(e["ev"] == "term.list" and not e["reading"] for e in tr) or not c["items"], what="first list")
+        s.wait_trace_quiet(quiet=0.2, timeout=60)
+        for _ in range(c["nsel"]):
+            s.post("toggle+down")
+        s.wait_trace_quiet(quiet=0.2, timeout=60)
+
+        def raw_get(q):
+            conn = http.client.HTTPConnection("127.0.0.1", s.port, timeout=30)
+            try:
+                conn.request("GET", "/" + ("?" + q if q else ""))
+                resp = conn.getresponse()
+                body = resp.read()
+                return resp.status, body
+            finally:
+                conn.close()
+        for g in c["gets"]:
+            st0, b0 = raw_get("limit=100000&offset=0")
+            if st0 != 200:
+                raise Infra("reference GET -> %d" % st0)
+            full = json.loads(b0)
+            alive, status, got, sel_got, mc = True, -1, [], [], -1
+            try:
+                status, body = raw_get(g["q"])
+                if status == 200:
+                    d = json.loads(body)
+                    got, sel_got, mc = [m["index"] for m in d["matches"]], [m["index"] for m in d["selected"]], d["matchCount"]
+            except (OSError, http.client.HTTPException, ValueError) as ex:
+                status = -2
+            after = None
+            try:
+                st1, b1 = raw_get("limit=100000&offset=0")
+                after = json.loads(b1) if st1 == 200 else None
+            except (OSError, http.client.HTTPException, ValueError):
+                pass
+            if after is None:
+                alive = not s.exited()
+                after = {"query": "?", "position": -1, "sort": False, "totalCount": -1, "matchCount": -1, "reading": False}
+                alive = False
+            recs.append({"k": "get", "sid": c["id"], "q": g["q"], "limit": min(g["limit"], HUGE), "offset": min(g["offset"], HUGE), "status": status,
+                         "all": [m["index"] for m in full["matches"]], "selAll": [m["index"] for m in full["selected"]],
+                         "got": got, "selGot": sel_got, "matchCount": mc, "before": state_digest(full), "after": state_digest(after),
+                         "alive": alive})
+            if not alive:
+                break
+        if not s.exited():
+            try:
+                s.post("abort", final=True)
+            except Exception:
+                pass
+            try:
+                s.wait_exit(timeout=20 if (recs and not recs[-1]["alive"]) else 60)
+            except Infra:
+                if not (recs and not recs[-1]["alive"]):
+                    raise           # a server that stopped answering is already on record; the pane is torn down below
+    finally:
+        s.close()
+    return recs
+
+
+def run_get_part(ctx, fzf):
+    cases = [make_get_session(ctx.rng, i) for i in range(ctx.pick(8, 80))]
+    with ThreadPoolExecutor(max_workers=6) as ex:
+        per = list(ex.map(lambda c: run_get_session(ctx, fzf, c), cases))
+    recs, owner = [], []
+    for c, rs in zip(cases, per):
+        for r in rs:
+            recs.append(r)
+            owner.append(c)
+    bad, _ = judge(ctx, "Judge_ServerProc", "Judge_ServerProc.cfg", recs, "server-get", timeout=900)
+    seen = set()
+    for i in bad:
+        c = owner[i]
+        if c["id"] in seen or len(seen) >= 4:
+            continue
+        seen.add(c["id"])
+        rs2 = run_get_session(ctx, fzf, c)
+        bad2, _ = judge(ctx, "Judge_ServerProc", "Judge_ServerProc.cfg", rs2, "server-get-re", workers=1)
+        if not bad2:
+            raise Infra("server-get session %d not reproduced" % c["id"])
+        r2 = rs2[bad2[0]]
+        ctx.violation("process level: GET /?%s (limit %d offset %d) on a session with %d matches / %d selected: status %d, %d matches and %d "
+                      "selected items returned (%s), fzf %s afterwards, state before %s after %s" % (
+                          r2["q"], r2["limit"], r2["offset"], len(r2["all"]), len(r2["selAll"]), r2["status"], len(r2["got"]), len(r2["selGot"]),
+                          json.dumps(r2["got"][:8]), "answers" if r2["alive"] else "does NOT answer", json.dumps(r2["before"]),
+                          json.dumps(r2["after"])), {"case": c, "record": r2})
+    ctx.cov["process_level_gets"] = len(recs)
+    ctx.cov["traces_validated_against_impl"] += len(cases)
+
+
 def run_part(ctx):
     fzf = ctx.build_fzf()
+    run_get_part(ctx, fzf)
     cases = [make_case(ctx.rng, i) for i in range(ctx.pick(16, 150))]
     with ThreadPoolExecutor(max_workers=6) as ex:
         recs = list(ex.map(lambda c: run_case(ctx, fzf, c), cases))
